@@ -146,7 +146,7 @@ var pureExternPrefixes = []string{
 	"(github.com/cosmos/cosmos-sdk/types.AccAddress).Bytes", "(github.com/cosmos/cosmos-sdk/types.ValAddress).Bytes",
 	"github.com/cosmos/cosmos-sdk/x/auth/types.NewModuleAddress",
 	"(github.com/cosmos/cosmos-sdk/x/staking/types.ValidatorI).", "(github.com/cosmos/cosmos-sdk/types.ModuleAccountI).", "(github.com/cosmos/cosmos-sdk/types.AccountI).", "(github.com/cosmos/cosmos-sdk/x/staking/types.Validator).",
-	"github.com/cometbft/cometbft/crypto/tmhash.", "github.com/cometbft/cometbft/crypto/merkle.",
+	"github.com/cometbft/cometbft/crypto/tmhash.", "github.com/cometbft/cometbft/crypto/merkle.", "github.com/cometbft/cometbft/libs/protoio.MarshalDelimited",
 	"(github.com/cometbft/cometbft/", "(*github.com/cometbft/cometbft/", "(*github.com/decred/dcrd/dcrec/secp256k1/v4.", "(*math/big.Int).Bytes", "encoding/binary.Varint", "encoding/binary.Uvarint", "encoding/binary.PutUvarint",
 	"(*github.com/bandprotocol/chain/v3/app.BandApp).AppCodec",
 	"(*github.com/cometbft/cometbft/abci/types.ResponseQuery).",
@@ -713,6 +713,18 @@ func (fc *FCtx) callByContract(c *FuncContract, fn *types.Func, sig *types.Signa
 		rt := sig.Results().At(i).Type()
 		s := fc.U.SortOf(rt)
 		v := Val{T: fc.U.Fresh("r_"+fn.Name(), s), S: s, GoT: rt}
+		if c.Flags["pure"] != "" && sig.Results().Len() > 1 && sig.Recv() == nil && len(c.Modifies) == 0 && len(litArgs) == 0 {
+			// multi-result pure function: result i is the symbol absfn("F#i", args) of the spec language
+			var sorts []*Sort
+			var ts []string
+			for _, p := range pn {
+				sorts = append(sorts, names[p].S)
+				ts = append(ts, names[p].T)
+			}
+			fname := extFnName(fn.FullName(), sorts, i)
+			fc.U.Fun(fname, sorts, s)
+			v.T = app(fname, ts...)
+		}
 		if c.Flags["pure"] != "" && sig.Results().Len() == 1 && sig.Recv() == nil && len(c.Modifies) == 0 && len(litArgs) == 0 {
 			// a pure function is a function of its arguments: the same symbol that `F(args)` denotes in specs
 			var sorts []*Sort
@@ -985,6 +997,9 @@ var extAliases = map[string]struct {
 	"Coins.SafeSub#1":                     {"(github.com/cosmos/cosmos-sdk/types.Coins).SafeSub", "Bool"},
 	"Coins.Equal":                         {"(github.com/cosmos/cosmos-sdk/types.Coins).Equal", "Bool"},
 	"NewCoins":                            {"github.com/cosmos/cosmos-sdk/types.NewCoins", "sdk.Coins"},
+	"Consensus.Marshal":                   {"(*github.com/cometbft/cometbft/proto/tendermint/version.Consensus).Marshal", "Bz"},
+	"PBBlockID.Marshal":                   {"(*github.com/cometbft/cometbft/proto/tendermint/types.BlockID).Marshal", "Bz"},
+	"BlockID.ToProto":                     {"(*github.com/cometbft/cometbft/types.BlockID).ToProto", "cmtproto.BlockID"},
 	"ModuleAccountI.GetAddress":           {"(github.com/cosmos/cosmos-sdk/types.AccountI).GetAddress", "Addr"},
 	"LegacyDec.RoundInt":                  {"(cosmossdk.io/math.LegacyDec).RoundInt", "Int"},
 	"Validator.TokensFromSharesTruncated": {"(github.com/cosmos/cosmos-sdk/x/staking/types.Validator).TokensFromSharesTruncated", "Int"},
